@@ -23,15 +23,15 @@ func c08Alphabet(thorough bool) []string {
 	}
 	// invalid: wrong role, wrong type, unknown addresses
 	a = append(a,
-		"sub:A:e1f3:L1lc:lc:d", // client of another type
-		"sub:A:e1f4:L1lc:lc:d", // a server feature as client
-		"sub:A:e1f9:L1lc:lc:d", // unknown client feature
-		"sub:A:e9f1:L1lc:lc:d", // unknown client entity
-		"sub:A:e1f1:L1cl:lc:d", // local client feature as server
-		"sub:A:e1f1:L1x:lc:d",  // unknown server feature
-		"sub:A:e1f1:L9:lc:d",   // unknown server entity
-		"sub:A:e1f1:L1lc:ms:d", // wrong requested type
-		"sub:B:e1f1:L1ms:lc:d", // type mismatch with the server
+		"sub:A:e1f3:L1lc:lc:d",  // client of another type
+		"sub:A:e1f4:L1lc:lc:d",  // a server feature as client
+		"sub:A:e1f9:L1lc:lc:d",  // unknown client feature
+		"sub:A:e9f1:L1lc:lc:d",  // unknown client entity
+		"sub:A:e1f1:L1cl:lc:d",  // local client feature as server
+		"sub:A:e1f1:L1x:lc:d",   // unknown server feature
+		"sub:A:e1f1:L9:lc:d",    // unknown server entity
+		"sub:A:e1f1:L1lc:ms:d",  // wrong requested type
+		"sub:B:e1f1:L1ms:lc:d",  // type mismatch with the server
 		"sub:A:e1f1:L1lc:gen:d", // the type Generic requested for features that are not Generic
 		"sub:A:e1f1:L1ms:gen:d", // ... which would even pair a LoadControl client with a Measurement server
 	)
